@@ -3,7 +3,8 @@
 From Coq Require Import List NArith ZArith Bool Arith Lia Permutation.
 From SK Require Import lib.IRSortKeys lib.IRCore lib.IRSearch model.C18_Model
   proof.C18_Order proof.C18_Spec proof.C18_Graph proof.C18_Canon proof.C18_Equiv proof.C18_Label proof.C18_Aut
-  proof.C18_Invariant proof.C18_Wf proof.C18_Count proof.C18_View.
+  proof.C18_Invariant proof.C18_Wf proof.C18_Count proof.C18_View proof.C18_Refine.
+From SK Require Import lib.C18_IRValid.
 Import ListNotations.
 
 (* ---------------- a checker for Permutation on concrete lists ---------------- *)
@@ -169,3 +170,8 @@ Qed.
 (** C18_vf2_count: the reference enumerator finds the same two self-maps *)
 Example ex_vf2_count : length (auts g1) = 2 /\ length (auts g3) = 1.
 Proof. vm_compute. auto. Qed.
+
+(** C18_refine_stable: the premise holds for the initial partition of the example (and the first refinement splits it) *)
+Example ex_refine_stable : vpart (node_ids g1) (init_part g1) /\
+  length (init_part g1) = 2 /\ length (refine IRInst.lexleb (sig g1) 6 (init_part g1)) = 3.
+Proof. split; [apply init_part_vpart; apply wf_g1|]. vm_compute. auto. Qed.
